@@ -71,6 +71,9 @@ def unfinished_dead_owners(W, owners, before_step):
     return out
 
 
+TRUNCATED = 'result-stream-truncated-by-signal-in-half-written-message'
+
+
 def diagnose(W):
     """Why did the run not drain?  One primary cause tag."""
     k = W.k
@@ -91,6 +94,12 @@ def diagnose(W):
         return 'task-stream-desynchronised-by-signal-in-half-read-task'
     if W.marks.get('task_taken_not_announced'):
         return 'task-read-but-not-announced-by-signalled-worker'
+    for pid, residue in W.wire_out.items():
+        w = W.workers.get(pid)
+        if residue and w is not None and w['proc'].dead and w.get('term_in_write'):
+            # the worker was unwound by a termination signal (shrink(), operator) in the middle of writing a
+            # message: the parent reads the rest of the stream from a wrong offset
+            return TRUNCATED
     # a queue lock still held by a process that is dead?
     locks = {getattr(W, 'outq_wlock_id', None): 'result-queue-write-lock',
              getattr(W, 'inq_rlock_id', None): 'task-queue-read-lock'}
@@ -220,6 +229,13 @@ def judge(W):
     judge_C11b(W, ex)
     judge_C12(W, ex)
     nontrivial = k.n_decisions > 0 and subject_occurred(W, prop, ex)
+    if cause == TRUNCATED:
+        # once a partial message sits in the result pipe the parent parses everything after it from a wrong
+        # offset: whatever this history shows afterwards is a consequence of that one defect.  Tag every
+        # signature of the run with it (a narrow history condition, see diagnose()), nothing is dropped.
+        for v in W.viol:
+            if not v['sig'].endswith(TRUNCATED):
+                v['sig'] += '@' + TRUNCATED
     return W.viol, nontrivial
 
 
